@@ -120,6 +120,10 @@ class Recurring(Harness):
                 ('bracketed digits denote the remainder: digits / (base^period - 1) = r', zreal(digits) == v * (base ** period - 1)),
                 ('the block has exactly `period` digits', z3.And(zint(digits) >= 0, zint(digits) < base ** period))]
 
+    def prefer(self, ctx):
+        # n/d in lowest terms (consecutive integers are coprime): the native printer reduces the fraction first
+        return [ctx['n'] == ctx['d'] - 1, ctx['n'] > 0]
+
     def case(self, ctx, vals, label):
         c = Harness.case(self, ctx, vals, label)
         c['inputs']['base'] = ctx['base']
@@ -253,7 +257,7 @@ class ExactMarker(Harness):
 
 
 def harnesses(tier):
-    return [Scientific(3 if tier == 'quick' else 6), Recurring([10] if tier == 'quick' else BASES), ExactMarker()]
+    return [Scientific(3 if tier == 'quick' else 6), Recurring([10, 16] if tier == 'quick' else BASES), ExactMarker()]
 
 
 # --------------------------------------------------------------------------------------------------------------
@@ -348,7 +352,7 @@ class BaseConversionNumerals(Harness):
 
 
 def harnesses(tier):   # noqa: F811
-    return [Scientific(3 if tier == 'quick' else 6), Recurring([10] if tier == 'quick' else BASES), ExactMarker(), BaseConversionNumerals()]
+    return [Scientific(3 if tier == 'quick' else 6), Recurring([10, 16] if tier == 'quick' else BASES), ExactMarker(), BaseConversionNumerals()]
 
 
 # ============================================================================================================
